@@ -85,14 +85,19 @@ def batchLevel (c : Cfg) (prev : Nat) (pts : List Pt) : Nat :=
   let lvls := pts.map (fun p => specLevel c p prev)
   if c.all then lvls.foldl min 3 else lvls.foldl max 0
 
+/-- Time of a batch event: the time of the triggering point = the first point of the batch level; for `all()` and
+for an OK batch there is no single triggering point: the batch's own time. -/
+def batchTime (c : Cfg) (prev : Nat) (b : Batch) (cur : Nat) : Int :=
+  if c.all || cur == 0 then b.tmax
+  else match b.pts.find? (fun p => specLevel c p prev == cur) with
+    | some p => p.t
+    | none => b.tmax
+
 /-- Batch form. -/
 def specBatch (c : Cfg) (tr : Track) (b : Batch) (fl : Bool) : Track × Option Ev :=
   if b.pts.isEmpty then (tr, none) else
   let cur := batchLevel c tr.level b.pts
-  let t := if c.all || cur == 0 then b.tmax
-           else match b.pts.find? (fun p => specLevel c p tr.level == cur) with
-             | some p => p.t
-             | none => b.tmax
+  let t := batchTime c tr.level b cur
   advance c tr cur t (due c tr.level cur t tr.lastAlert && (!fl || cur == 0))
 
 def specStream (c : Cfg) (tr : Track) : List (Pt × Bool) → List Ev
